@@ -78,6 +78,10 @@ class SymDomain(ConcDomain):
             return Undef(name)
         if t0.startswith("std::vector<double") or t0.startswith("Vector<double"):
             return SArr(name, 0, zero=True)
+        import re
+        m = re.match(r"^(const\s+)?double\s*\[(\d+)\]$", t0)
+        if m:
+            return SArr(name, int(m.group(2)))
         return ConcDomain.field_default(self, t, name)
 
     def elem_class(self):
